@@ -95,6 +95,12 @@ def _configs(tier, salts):
         # declared linear-algebra faults: a point evaluated just before a linear-algebra exit or error-recovery restart
         if salt == 0 or (tier == "thorough" and salt == 1):
             out += [(c, p) for c, p in cfgs.linalg_fault_cfgs(salt, tier) if "noisy" not in c["broad_flags"]]
+        # regularised modes (capped subproblem solver) under soft restarts at budgets that let a restart happen (wave j: a saved point
+        # valued with h at the scaled coordinates loses the final choice - needs regulariser + scaling + the saved slot)
+        if salt == 0:
+            for name, cfg in cfgs.broad_cfgs(salt=salt, require=("regfast",), overlays=("soft",), budgets=(40, 80), reg_budgets=(40, 80)):
+                if name.endswith("+soft"):
+                    out.append((cfg, {"depth": 0}))
         # the broad option bank, deterministic modes only
         if salt == 0 or (tier == "thorough" and salt == 1):
             for name, cfg in cfgs.broad_cfgs(salt=salt, exclude=("noisy",), budgets=(7, 25, 60)):
